@@ -406,13 +406,46 @@ def zeros(shape, dtype="float"):
 class Masked:
     """a[mask] for a 1-D boolean mask over axis 0: selection of unknown length.
     src: reader over full array (idx tuple), n: length of axis 0, mask: reader k -> bool, rest: trailing shape"""
-    __slots__ = ("src", "n", "mask", "rest", "dtype")
+    __slots__ = ("src", "n", "mask", "rest", "dtype", "_enum")
 
     def __init__(self, src, n, mask, rest, dtype):
         self.src, self.n, self.mask, self.rest, self.dtype = src, n, mask, rest, dtype
+        self._enum = None
 
     def count(self):
         return Sum(0, self.n, lambda t: ite(self.mask(t), 1, 0))
+
+    def enumeration(self):
+        """ASSUMED contract of boolean-mask selection a[mask]: the result lists the selected rows in increasing index order,
+        i.e. row p of the result is row sel(p) of `a`, where sel is a bijection from [0, count) onto {j < n : mask_j}
+        (uninterpreted `sel!k`).  Facts 0 <= sel(p) < n and mask(sel(p)) (for 0 <= p < count) are instantiated for every
+        application of sel in a query; the enumeration is registered for the Sigma re-indexing rule (axioms.py)."""
+        if self._enum is None:
+            import z3
+            from . import sigma
+            name = sv.fresh_name("sel")
+            f = z3.Function(name, z3.IntSort(), z3.IntSort())
+            cnt = self.count()
+            n, mask = self.n, self.mask
+
+            def fact(p):
+                inr = z3.And(p >= 0, p < sv.znum(cnt))
+                sp = f(p)
+                return z3.Implies(inr, z3.And(sp >= 0, sp < sv.znum(n), sv.zb(mask(sv.SV(sp)))))
+            cur().array_facts.append((name, fact))
+            sigma.SELECTIONS[name] = (f, n, mask, cnt)
+            self._enum = (f, cnt)
+        return self._enum
+
+    def row(self, p):
+        """element / row p of the selection (0 <= p < count is a side obligation)"""
+        f, cnt = self.enumeration()
+        p = _norm_index(p, cnt, "index-bounds")
+        sp = sv.SV(f(sv.znum(p)))
+        src = self.src
+        if not self.rest:
+            return src((sp,))
+        return new_arr(tuple(self.rest), lambda idx: src((sp,) + tuple(idx)), self.dtype)
 
 
 def _norm_index(i, n, what="index-bounds"):
@@ -478,7 +511,10 @@ def _expand_key(key, nd):
 
 def getitem(a, key):
     if isinstance(a, Masked):
-        raise EngineError("indexing a masked selection")
+        k = norm(key) if not isinstance(key, (tuple, slice, list, Arr)) and key is not None else None
+        if k is not None and sv.is_scalar(k) and not isinstance(k, bool):
+            return a.row(k)
+        raise EngineError("indexing a masked selection (only a single integer row index is modelled)")
     shape = a.shape
     # boolean mask (whole-array or leading-axis)
     if isinstance(key, Arr) and key.dtype == "bool":
